@@ -36,6 +36,18 @@ CHECKS = {
    technique='TLA+ lexer with physical line numbers and ErrMsg; TLC enumerates erroneous token strings with separators/brackets; recorded error messages validated by TLC',
    text='The specification computes, for every rejected text, the offending token and its physical line (1 + line breaks strictly before it, independent of brackets and of ;). TLC enumerates token strings with every mixture of newline/CRLF/; separators and multi-line brackets before a stray token, plus truncations; the real ParserError message must name that token text and that line, and end of input must be reported as such.',
    note='Trusted: TLC. The token text is compared as the lexer reports it (str(token.value)).'),
+ 'C14': dict(engine='vm', level='model_checking', design='4/C14',
+   technique='TLA+ heap/builtin semantics explored as a state machine over a 297-operation alphabet (model-based testing with the TLA+ model as oracle); algebraic laws checked in every reachable container state; paths replayed on the code and validated by TLC',
+   text='TLC explores every sequence of up to 3 (quick) / 4 (thorough) container operations on one list and one dict (push pop insert remove read write compound-write del get index_of keys/values/items len in; integer, decimal, negative, out-of-range, string, bool and None keys) and checks in every reachable state, for every operation: WriteRead (through the same key cast for literal/write/read/get/in), ReadGet, DelGone, FailedNoChange, IndexLaw (truncation, negative positions), Observers (new lists, consistent with the pairs), ParserError classes. One path to each explored state plus sampled next operations, and random sequences up to length 12, are executed on the real code (one eval call per operation on persistent names) and validated by TLC.',
+   note='Trusted: TLC, external tracer. Out-of-range del/write error classes are modelled as the code has them (the property leaves them open).'),
+ 'C03': dict(engine='vm', level='model_checking', design='4/C03',
+   technique='TLA+ cap logic parametric in Cap, model-checked exhaustively at Cap=6 (SizeInv on every heap object, AtCapFails); the same scenario descriptors executed on the code at the true constant 10000 and validated by TLC with Cap=10000',
+   text='The specification guards every step that creates or grows a list/dict (normative reading of the property); TLC checks SizeInv and AtCapFails for host containers of length 0, 1, Cap-2, Cap-1, Cap, Cap+1 under all sequences of <= 2 (quick) / 3 (thorough) operations from an alphabet of 58 (every builtin and operator that returns or mutates a container, incl. the element-adding builtins reached through aliases, callbacks and lambdas). The explored scenario descriptors are rendered at real scale (0, 1, 9998..10001 elements) and the recorded executions validated by TLC with Cap = 10000; unchecked growth paths of the code are known findings identified by the deviation that reproduces them.',
+   note='Trusted: TLC; the cap logic is explored at a small Cap (the specification is parametric), the code always runs at 10000. sorted/map/filter/split/replace/join on 10000-element operands are left-domain in trace validation (specified, but too slow to evaluate stepwise).'),
+ 'C16': dict(engine='vm+lexparse', level='model_checking', design='4/C16',
+   technique='TLA+ evaluator: TLC plants each language-level failure in every expression/statement context (ClassInv); TLA+ lexer/parser: TLC enumerates character and token strings incl. truncations; replay + TLC trace validation of exception classes; hostile inputs in a subprocess',
+   text='Evaluator part: MC_C16 plants each runtime failure (undefined variable/function, compound assignment to an undefined name, missing key/index read, compound index assignment on a missing key, empty/out-of-range pop, size cap, budget, non-container arguments) in 26 expression contexts x 8 statement contexts and inside host AST lambdas; TLC checks that the outcome is a ParserError (or the ops-limit subclass). Syntax part: all character strings / token strings up to a bound, truncations of sentences at every token boundary and character soup must be rejected with ParserError by the real lexer/parser exactly where the specification rejects them. Exception classes of every recorded node exit are validated by TLC; a hostile batch (deep nesting, megabyte tokens) runs in a subprocess and must not crash.',
+   note='Trusted: TLC, tracer. Exception classes other than ParserError/OpsLimit are compared by name only where the specification pins them.'),
 }
 NA_REASON = 'check not built yet (construction in progress, see DESIGN.md section 8)'
 m = {"version": 1, "setup_cmd": "cd /verif && ./setup.sh",
